@@ -33,5 +33,10 @@ for sid in ids:
             row.setdefault(ck.split('/')[0], 'oracle fired (cross-hit in %s runs)' % k)
     matrix[sid] = row
     print(sid, row, flush=True)
-if not only:
-    json.dump(matrix, open(os.path.join(VERIF, 'seeded', 'MATRIX.json'), 'w'), indent=1, sort_keys=True)
+mfile = os.path.join(VERIF, 'seeded', 'MATRIX.json')
+if only and os.path.exists(mfile):
+    # partial re-evaluation: the other rows keep their last verdict
+    old = json.load(open(mfile))
+    old.update(matrix)
+    matrix = old
+json.dump(matrix, open(mfile, 'w'), indent=1, sort_keys=True)
